@@ -177,6 +177,11 @@ static void attribute(const Desc& d, const Facts& f, const Plan& plan, const Wor
             bool deferrable = false;
             for (const Rec* r : {O, E}) if (beh(r) && r->evtype >= 0 && r->evtype < (int)f.deferrable.size() && f.deferrable[r->evtype]) deferrable = true;
             bool ec = (O && O->kind == K_EC) || (E && E->kind == K_EC);
+            // the behaviour runs at the expected place but sees a default-constructed event object: the stored copy lost its value
+            if (both && O->kind == E->kind && O->site == E->site && O->occ == OCC_UNKNOWN && E->occ != OCC_UNKNOWN) {
+                add(P, "C18"); add(P, "C20");
+                o.detail = "the event object handed to the behaviour does not carry the submitted value (default-constructed copy)";
+            }
             if (compl_) add(P, "C10");
             if (deferrable && f.defer) add(P, "C05");
             if (f.blocking) add(P, "C11");
